@@ -546,8 +546,47 @@ def check_immutable_rules(prog, report):
                   '`.weights` (and local aliases)' % n)
 
 
+def check_scheme_ctor(prog, report):
+    """R-layout (constructors of the plain schemes): nodes and weights are
+    stored as the arrays they are given, each converted on its own -- a
+    dtype taken from the other array (or an integer dtype) truncates nodes
+    of rules whose weights happen to be written as integers."""
+    for cls in ('QuadScheme1D', 'QuadScheme2D', 'QuadScheme3D'):
+        ci = prog.cls(Q, cls)
+        fi = ci.methods['__init__']
+        got = {}
+        for st in fi.node.body:
+            if isinstance(st, ast.Assign) and len(st.targets) == 1 and \
+                    text(st.targets[0]) in ('self.points', 'self.weights'):
+                got[text(st.targets[0])[5:]] = st.value
+        ok = set(got) == {'points', 'weights'}
+        why = 'both arrays assigned' if ok else 'assignment missing'
+        for name, v in got.items():
+            good = isinstance(v, ast.Call) and text(v.func) in (
+                'np.array', 'np.asarray', 'numpy.array',
+                'numpy.asarray') and len(v.args) == 1 and text(
+                    v.args[0]) == name
+            if good:
+                for kw in v.keywords:
+                    if kw.arg == 'dtype' and text(kw.value) not in (
+                            'float', 'np.float64', 'np.double',
+                            'numpy.float64'):
+                        good = False
+                    elif kw.arg not in ('dtype', 'copy'):
+                        good = False
+            if not good:
+                ok = False
+                why = '`self.%s = %s`' % (name, text(v)[:50])
+        report.check(ok, 'R-layout', cls + ' stores its arrays',
+                     fi.where(), 'self.points = np.array(points), '
+                     'self.weights = np.array(weights), each converted '
+                     'independently (at most dtype=float): ' + why,
+                     construct=cls + '.__init__: array storage')
+
+
 def check_mirrors(prog, report):
     check_immutable_rules(prog, report)
+    check_scheme_ctor(prog, report)
     n = 0
     for cls, dims in (('QuadScheme1D', 1), ('QuadScheme2D', 2),
                       ('QuadScheme3D', 3)):
